@@ -4,7 +4,7 @@
 //
 //	rs <zone>                                         => <removeSpace(zone)>
 //	norm <zone> <removeSpace(zone)> isip=<net.ParseIP ok> q=<certmagic qualifies> ascii=<idna.ToASCII | none>
-//	     ip=<b> wild=<b> local=<b> fix=<b>            => ok:<name> | err:<ip|qualify|wildcard|idna|chars>
+//	     ip=<b> wild=<b> local=<b> fix=<b>            => ok:<name> | err:<ip|qualify|wildcard|idna|emptylabel|chars>
 //	     (isip/q/ascii: library results on the real trimmed string = model inputs; ip/wild/local: category of the
 //	      input decided here independently of the code under test; fix: the input is an already accepted output)
 //	rec <zone> <delegation> <token> <sha224(token)> <IsFqdn zone> <IsFqdn delegation> => <name>|<content>
@@ -66,7 +66,7 @@ func doRS(z string) {
 func classify(err error) string {
 	m := err.Error()
 	for _, p := range [][2]string{{"cannot be an IP", "ip"}, {"invalid zone for acme", "qualify"}, {"wildcard zone", "wildcard"},
-		{"error converting", "idna"}, {"invalid dns characters", "chars"}} {
+		{"error converting", "idna"}, {"empty label", "emptylabel"}, {"invalid dns characters", "chars"}} {
 		if strings.Contains(m, p[0]) {
 			return p[1]
 		}
@@ -129,7 +129,7 @@ var spaces = []rune{9, 10, 11, 12, 13, 32, 0x85, 0xA0, 0x1680, 0x2000, 0x2001, 0
 var notSpaces = []rune{0x200b, 0x200c, 0x200d, 0x2060, 0xfeff, 0x180e, 0x1c, 0x1f, 0x7f, 0xad}
 
 var asciiLabels = []string{"a", "example", "hello", "www", "good", "x1", "a-b", "-a", "a-", "0", "123", "8", "com", "net", "io", "xn--nxasmq6b",
-	"xn--a", "xn--", "xn--80ak6aa92e", "a_b", "a%b", "a:b", "a/b", "a@b", "a+b", "a b", "A", "Example", "COM", "",
+	"xn--a", "xn--", "xn--", "xn--80ak6aa92e", "a_b", "a%b", "a:b", "a/b", "a@b", "a+b", "a b", "A", "Example", "COM", "",
 	strings.Repeat("a", 63), strings.Repeat("a", 64), strings.Repeat("b", 200)}
 var uniLabels = []string{"你好", "后缀", "bücher", "BÜCHER", "straße", "ＡＢＣ", "ｅｘａｍｐｌｅ", "８", "😀", "ß", "İ", "ı", "ǆ", "é", "é", "ك", "א", "日本語", "‍", "a­b", "ª", "Ⅷ", "。", "ａ。ｂ"}
 var tlds = []string{"com", "net", "org", "io", "后缀", "local", "localhost", "internal", "arpa", "LOCAL", "Local", "test", "lan", "COM"}
